@@ -249,6 +249,16 @@ func dialerUpgradeRules(c *Ctx, prop string) {
 			if fold.Show(wr[0].Args[0]) != "bw" || fold.Show(wr[0].Args[1]) != "url" {
 				problems = append(problems, "the request is not written for the given URL to the pooled writer")
 			}
+			// the configuration reaches the request writer: subprotocols, extensions, extra headers, Host override
+			if len(wr[0].Args) == 7 {
+				for i, want := range []string{"protocols", "Extensions", "Header", "Host"} {
+					if got := fold.Show(wr[0].Args[3+i]); !strings.Contains(got, want) {
+						problems = append(problems, fmt.Sprintf("the request is written with %s where the dialer's configured %s belongs", got, want))
+					}
+				}
+			} else {
+				problems = append(problems, fmt.Sprintf("undecided: httpWriteUpgradeRequest takes %d arguments (bw, url, nonce, protocols, extensions, header, host expected)", len(wr[0].Args)))
+			}
 		}
 		for _, ca := range p.Calls("checkAccept") {
 			if fold.Show(ca.Args[1]) != `"sent-nonce"` {
